@@ -220,6 +220,8 @@ def correspond(ctx, corr):
                                                                and 0 <= x < 256 for x in d) and cls is fr.Frame:
                     for form, mk in (("iter", lambda: iter(list(d))), ("generator", lambda: (x for x in list(d))),
                                      ("map", lambda: map(int, list(d))), ("bytearray", lambda: bytearray(d)),
+                                     ("tuple", lambda: tuple(d)), ("list", lambda: list(d)),
+                                     ("bytes", lambda: bytes(d)),
                                      ("reversed", lambda: reversed(list(d)[::-1]))):
                         st2, r2 = outcome(lambda: cls(b, mk()))
                         ans2 = "ok %d %d" % (int(fbits(r2)), int(fdata(r2))) if st2 == "ok" else "err " + r2
